@@ -57,6 +57,7 @@ def run(ctx):
         broken["T3:translate"] = str(e)
     if info is not None:
         ctx.extra["z0_port_test_strict"] = info["z0"]
+        ctx.extra["add_common_prevalidates"] = info["add_common_prevalidates"]
         ok, res = ctx.coq_obligations(["Err/ContractProofs.v", "Err/ContractProofs2.v", "Properties_C11.v"])
         if not ok:
             log = getattr(ctx, "_last_coq_log", "")
@@ -75,11 +76,7 @@ def run(ctx):
 
     # ------------------------------------------------------------------ 3. model tie
     if "C11:proofs" not in broken and info is not None:
-        try:
-            drv = ctx.ocaml_driver("drv_err")
-        except vplib.BuildError as e:
-            drv = None
-            broken["tie:driver"] = str(e)
+        drv = fresh_driver(ctx, info, broken)
         if drv is not None:
             cat.model_tie(ctx, runner, drv, broken)
 
@@ -101,6 +98,29 @@ def run(ctx):
                      "model/library comparison" % ctx.evaluations)
 
 
+def fresh_driver(ctx, info, broken):
+    """The extracted driver contains the generated facts (errno table, z0 port operators, add_common
+    order); vplib's staleness test does not look at coq/Gen, so ask the executable which facts it was
+    extracted with and re-extract when they are not those of the working tree."""
+    want = "".join("1" if info["z0"][f] else "0" for f in errno_table.Z0_FILES) + (
+        "1" if info["add_common_prevalidates"] else "0")
+    for attempt in (0, 1):
+        try:
+            drv = ctx.ocaml_driver("drv_err")
+        except vplib.BuildError as e:
+            broken["tie:driver"] = str(e)
+            return None
+        rc, out, err = vplib.sh([drv], input="g\n", timeout=60)
+        if rc == 0 and out.strip() == want:
+            return drv
+        if attempt == 0:
+            ctx.log("extracted driver is stale with respect to coq/Gen/ErrnoGen.v (%s, want %s): re-extracting"
+                    % (out.strip(), want))
+            os.utime(os.path.join(vplib.VERIF, "ocaml", "Extract_err.v"), None)
+    broken["tie:driver"] = "extracted driver does not carry the generated facts of the working tree"
+    return None
+
+
 def validate_T3(ctx, exe, env, info, broken):
     rc, out, err = vplib.sh([exe, "errno"], timeout=120, env=env)
     rows = []
@@ -112,18 +132,14 @@ def validate_T3(ctx, exe, env, info, broken):
         ctx.violation(sig, "error reporter harness failed: %s" % err[-300:], {"stderr": err[-3000:]})
         ctx.obligation("T3:validation", False, "harness failed")
         return
-    # model side: the generated switch evaluated by the extracted code (or, when the translator broke,
-    # the documented table itself)
+    # model side: the table the translator has just generated (the same data coq/Gen/ErrnoGen.v holds and
+    # theorem errno_table speaks about); when the translator broke, only the documented table is used
     model = {}
     if info is not None:
-        try:
-            drv = ctx.ocaml_driver("drv_err")
-            rc2, mout, merr = vplib.sh([drv], input="".join("e %d\n" % c for c in range(-1, 9)), timeout=60)
-            vals = mout.split()
-            if rc2 == 0 and len(vals) == 10:
-                model = dict(zip(range(-1, 9), [MODEL_NAMES[v] for v in vals]))
-        except vplib.BuildError as e:
-            broken["T3:driver"] = str(e)
+        conv = {"E_SYS": None, "E_ZERO": "0", "E_INVAL": "EINVAL", "E_DOM": "EDOM", "E_BADMSG": "EBADMSG",
+                "E_NOENT": "ENOENT", "E_NOPROTOOPT": "ENOPROTOOPT", "E_NOSYS": "ENOSYS"}
+        by_code = dict((code, conv[info["table"][name]]) for name, code in info["enum"])
+        model = dict((c, by_code.get(c, conv[info["default"]])) for c in range(-1, 9))
     bad = []
     ncmp = 0
     for r in rows:
